@@ -296,7 +296,7 @@ fn check_bld(h: &CaseH, b: &Bld) -> Verdict {
         for s in &fl.spaces {
             if let Some(ms) = m.spaces.iter().find(|x| x.name == s.name) {
                 vensure!((ms.height - fl.height).abs() < 0.006, "C03:space-height", "space {:?}: height {} but its storey is {} high (HEIGHT attribute written: {:?})", s.name, ms.height, fl.height, s.height_attr);
-                vensure!((ms.z - fl.z).abs() < 1e-4, "C03:space-z", "space {:?}: z {} but its storey is at {}", s.name, ms.z, fl.z);
+                vensure!((ms.z - (fl.z + s.z)).abs() < 1e-4, "C03:space-z", "space {:?}: z {} but its storey is at {} and its own Z is {}", s.name, ms.z, fl.z, s.z);
             }
             if s.height_attr.map_or(false, |v| v != 0.0 && (v - fl.height).abs() > 0.05) {
                 h.class("space-height-attribute-differs-from-storey");
